@@ -356,8 +356,44 @@ def apply_seq_model(root: pathlib.Path):
             done.append('recreate_instructions')
     return done
 
+
+PARSER_ENTRY_POINTS = (
+    ('src/code.rs', '    pub fn parse(interpreter: &Interpreter, script: &str) -> Result<Self, Error> {\n'),
+    ('src/instruction/local_variable.rs', '    pub(crate) fn parse_input(&mut self, input: &str) -> Result<Arc<[InstructionWithStr]>, Error> {\n'),
+    ('src/variable/type.rs', '    fn from_str(s: &str) -> Result<Self, Self::Err> {\n'),
+    ('src/variable.rs', '    fn from_str(s: &str) -> Result<Self, Error> {\n'),
+    ('src/variable.rs', 'pub fn is_correct_variable_name(name: &str) -> bool {\n'),
+    # the standard library object (every native wrapper) is only ever handed to the parser by the crate itself
+    ('src/interpreter.rs', '    pub fn with_stdlib() -> Self {\n'),
+)
+
+def apply_parser_cut(root: pathlib.Path):
+    """CBMC cannot execute the pest parser (DESIGN section 0).  Every harness that reaches
+    `Instruction::exec` nevertheless had the whole front end in its goto binary (the iterator operators'
+    `lazy_static`s call `Code::parse`), which is most of the 110 MB / ~60 s of serial codegen per harness.
+    In the scratch copy the five functions that call `SimpleSLParser::parse` get a `#[cfg(kani)]` twin that
+    panics ("text cannot be parsed under CBMC"); the original is kept under `#[cfg(not(kani))]`.  Sound: a
+    path that really needs the parser now FAILS its harness instead of never finishing."""
+    done = []
+    for rel, sig in PARSER_ENTRY_POINTS:
+        f = root / rel
+        if not f.exists():
+            continue
+        s = f.read_text()
+        if s.count(sig) != 1:
+            continue
+        ind = sig[:len(sig) - len(sig.lstrip())]
+        twin = (ind + '#[cfg(kani)]\n' + ind + '#[allow(unused_variables)]\n' + sig +
+                ind + '    panic!("the pest parser is outside the reach of CBMC: a path that parses text cannot be judged")\n' + ind + '}\n' +
+                ind + '#[cfg(not(kani))]\n')
+        f.write_text(s.replace(sig, twin + sig))
+        done.append(rel + ':' + sig.strip().split('(')[0].split()[-1])
+    return done
+
 def apply_layout(root: pathlib.Path):
     open_fields(root)
+    if __import__('os').environ.get('VERIF_NO_PARSER_CUT') != '1':
+        apply_parser_cut(root)
     apply_seq_model(root)
     apply_gating(root)
     apply_value_gating(root)
